@@ -178,3 +178,32 @@ def run_vrt(cfg, tier, seed, cmd, prop, out_json, extra=None, wrapper=None, time
     exe = ensure_vrt(cfg, tier, seed)
     argv = (wrapper or []) + [exe, cmd, "--prop", prop, "--tier", tier, "--seed", str(seed), "--corpus", os.path.join(gen_dir(tier), "corpus.json"), "--out", out_json] + (extra or [])
     return run_engine(argv, out_json, timeout=timeout, extra_env=extra_env, crash_tag=crash_tag)
+
+
+VDERIVE = os.path.join(ENGINE, "vderive")
+
+
+def ensure_vderive(cfg):
+    """cfg like 'tc-u-dev', 'sm-f-rel'"""
+    be, rt, prof = cfg.split("-")
+    tdir = os.path.join(VDERIVE, "target", cfg)
+    key = f"vderive-{cfg}"
+    if key not in _built:
+        feats = []
+        if be == "sm":
+            feats.append("sm")
+        if rt == "f":
+            feats.append("forbid_unsafe")
+        cmd = ["cargo", "build", "--offline", "-q", "--target-dir", tdir]
+        if prof == "rel":
+            cmd.append("--release")
+        if feats:
+            cmd += ["--features", ",".join(feats)]
+        sh(cmd, cwd=VDERIVE, timeout=3600)
+        _built.add(key)
+    return os.path.join(tdir, "release" if prof == "rel" else "debug", "vderive")
+
+
+def run_vderive(cfg, cmd, prop, tier, out_json, extra=None):
+    exe = ensure_vderive(cfg)
+    return run_engine([exe, cmd, "--prop", prop, "--tier", tier, "--out", out_json] + (extra or []), out_json, timeout=3600)
